@@ -302,13 +302,15 @@ func runCheck(id, tier string) int {
 
 	results := make([]*fw.ShardResult, nsh)
 	crashNotes := make([][]string, nsh)
+	crashVio := make([][]fw.Violation, nsh)
+	gaveUp := make([]bool, nsh)
 	var wg sync.WaitGroup
 	for s := 0; s < nsh; s++ {
 		wg.Add(1)
 		go func(s int) {
 			defer wg.Done()
 			var poison []string
-			for attempt := 0; attempt < 8; attempt++ {
+			for attempt := 0; attempt < 25; attempt++ {
 				out := filepath.Join(scratch, fmt.Sprintf("res-%d.json", s))
 				infl := filepath.Join(scratch, fmt.Sprintf("inflight-%d", s))
 				os.Remove(out)
@@ -340,7 +342,30 @@ func runCheck(id, tier string) int {
 				}
 				crashNotes[s] = append(crashNotes[s], "worker died executing a case; poisoned and restarted: "+firstLine(tail))
 				poison = append(poison, fmt.Sprintf("%x", fw.H64(txt)))
+				// the death of the process is itself a violation: record it here,
+				// whatever happens to the rest of the shard
+				kind, prog := txt, ""
+				if i := strings.IndexByte(txt, '\n'); i >= 0 {
+					kind, prog = txt[:i], txt[i+1:]
+				}
+				mode := kind
+				if kind == "interp" {
+					mode = "file"
+				}
+				cls := "crash"
+				switch {
+				case strings.Contains(tail, "stack overflow") || strings.Contains(tail, "stack exceeds"):
+					cls = "stack-overflow"
+				case strings.Contains(tail, "out of memory"):
+					cls = "out-of-memory"
+				case strings.Contains(tail, "concurrent map"):
+					cls = "concurrent-map"
+				}
+				crashVio[s] = append(crashVio[s], fw.Violation{Sig: id + "|fatal|" + cls, Count: 1, Replay: fw.Replay{
+					Property: id, Sig: id + "|fatal|" + cls, What: "the interpreter process died (Go fatal error): " + firstLine(tail), Mode: mode, Program: prog,
+					Expected: "normal end or reported error", Observed: firstLine(tail), CLI: mode == "file" || mode == "repl", InStatus: 2}})
 			}
+			gaveUp[s] = true
 		}(s)
 	}
 	wg.Wait()
@@ -353,8 +378,24 @@ func runCheck(id, tier string) int {
 		for _, n := range crashNotes[s] {
 			agg.Notes = append(agg.Notes, fmt.Sprintf("shard %d: %s", s, n))
 		}
+		for _, v := range crashVio[s] {
+			v := v
+			if old, ok := vio[v.Sig]; ok {
+				old.Count++
+				if len(v.Replay.Program) < len(old.Replay.Program) {
+					old.Replay = v.Replay
+				}
+			} else {
+				vio[v.Sig] = &v
+			}
+		}
 		if r == nil {
-			harnessErr = append(harnessErr, fmt.Sprintf("shard %d produced no result: %v", s, crashNotes[s]))
+			agg.Exhaustive = false
+			if len(crashVio[s]) == 0 {
+				harnessErr = append(harnessErr, fmt.Sprintf("shard %d produced no result: %v", s, crashNotes[s]))
+			} else {
+				agg.Notes = append(agg.Notes, fmt.Sprintf("shard %d abandoned after %d fatal crashes", s, len(crashVio[s])))
+			}
 			continue
 		}
 		agg.Evaluations += r.Evaluations
